@@ -71,8 +71,11 @@ def isEmptyTop (t : T) : Bool :=
 def makeRoot (e : Enc) (m : Tree) : List (Bytes × Bytes) × RootRec × Tree :=
   if isEmptyTop m.root then
     ([], { link := none, size := m.size, height := m.height, bf := m.bf }, { m with dirty := false })
-  else if m.rootP then
-    ([], { link := some (nodeName e m.root), size := m.size, height := m.height, bf := m.bf }, m)
+  else if !m.dirty then
+    -- the top node is a name, or an unmodified loaded node held by pointer (a clone): its
+    -- recorded source name is returned and nothing is written
+    ([], { link := some (nodeName e m.root), size := m.size, height := m.height, bf := m.bf },
+     { m with rootP := true })
   else
     (storesBelow e m.root ++ [(nodeName e m.root, nodeBytes e m.root)],
      { link := some (nodeName e m.root), size := m.size, height := m.height, bf := m.bf },
